@@ -8,7 +8,9 @@
    and C01 (instructions: 2 + 2 * extension words), and checked on every chunk of every real run by the
    hook-trace correspondence (tools/props/c02.py). *)
 From Coq Require Import List ZArith Bool.
+From Verif Require Import Base.Res.
 From Verif Require Import Model.Block Proofs.BlockP Model.Directives Proofs.BlockDirectives.
+From Verif Require Spec.PDP11 Model.Insns Proofs.BlockInsns.
 Import ListNotations.
 Open Scope Z_scope.
 
@@ -70,6 +72,22 @@ Theorem C02_directive_block_invariant :
   adv_list l = zlen (out_list l).
 Proof. exact directive_block_invariant. Qed.
 Print Assumptions C02_directive_block_invariant.
+
+(* composed with C01 (Proofs/BlockInsns.v): the length of an instruction is a function of its operand
+   FORMS only -- one opcode word plus one word per indexed / immediate / absolute / relative operand --
+   whatever the operand values and the address; that is the size compile_insn announces before any
+   value is known, so an instruction statement satisfies [consistent], deferred or not *)
+Theorem C02_insn_length_by_form :
+  forall i ops addr ws, Insns.compile_with i ops addr = Ok ws ->
+  List.length ws = S (BlockInsns.ext_total (Insns.stubs i) ops).
+Proof. exact BlockInsns.insn_length_by_form. Qed.
+Print Assumptions C02_insn_length_by_form.
+
+Theorem C02_instruction_statement_consistent :
+  forall i ops addr ws ready, Insns.compile_with i ops addr = Ok ws ->
+  consistent (Leaf ready (Some (BlockInsns.announced_insn i ops)) (BlockInsns.bytes_of_words ws)) = true.
+Proof. exact BlockInsns.insn_statement_consistent. Qed.
+Print Assumptions C02_instruction_statement_consistent.
 
 (* non-vacuity: a block with a deferred sized statement, an unsized one, a label, a nested repeat *)
 Example C02_example :
